@@ -7,7 +7,8 @@ open Lean Tackler Codec
 
 /-- output kinds of op `run` -/
 def outputTable : List (String × Ops.OutputFn) := [
-  ("txns", Ops.outTxns)
+  ("txns", Ops.outTxns),
+  ("probe", Ops.outProbe)
 ]
 
 /-- ops -/
